@@ -389,6 +389,7 @@ package shimagent
 //@   requires s != nil && inv(s) && unheld(s) && inv2(s)
 //@   modifies mstate(addrof(s.mu)), mapof(s.certs), mapof(s.upstreamSSHCACertCache)
 //@   let f0 = old(calls(filter))
+//@   let t0 = old(calls(time.Now))
 //@   ensures unheld(s) && inv(s) && inv2(s)
 //@   ensures [one-critical-section] calls(RWMutex.Lock) == old(calls(RWMutex.Lock)) + 1 && calls(RWMutex.Unlock) == old(calls(RWMutex.Unlock)) + 1
 //@   ensures [locked-lists-nothing] old(s.locked) ==> (len(result0) == 0 && result1 == nil && calls(filter) == f0 &&
@@ -399,7 +400,13 @@ package shimagent
 //@   ensures [no-hidden-upstream-certificate-is-listed] (!old(s.locked) && ret(filter, f0, 2) == nil) ==>
 //@     forall(i, 0 <= i && i < len(result0), result0[i] != nil &&
 //@       ((s.noUpstreamSSHCACert && hiddenBlob(akBlob(result0[i]))) ==> (sha(akBlob(result0[i])) in dom(s.certs))))
+//@   ensures [nothing-listed-is-outside-its-validity-window] (!old(s.locked) && ret(filter, f0, 2) == nil) ==> (calls(time.Now) == t0 + 1 &&
+//@     forall(i, 0 <= i && i < len(result0), okBlob(akBlob(result0[i]), tUnix(ret(time.Now, t0, 0))) || (sha(akBlob(result0[i])) in dom(s.certs))) &&
+//@     forall(h#bytes, h in dom(s.certs), validAt(s.certs[h].Certificate, tUnix(ret(time.Now, t0, 0)))))
 //@   loop 1:
+//@     invariant calls(time.Now) == t0 + 1
+//@     invariant forall(j, 0 <= j && j < len(keysInAgent), okBlob(kb(keysInAgent[j]), tUnix(ret(time.Now, t0, 0))), keysInAgent[j])
+//@     invariant forall(h#bytes, h in dom(s.certs), validAt(s.certs[h].Certificate, tUnix(ret(time.Now, t0, 0))))
 //@     invariant wheld(s) && inv(s) && !old(s.locked)
 //@     invariant calls(filter) == f0 + 1 && arg(filter, f0, 0) == s && ret(filter, f0, 2) == nil && err == nil
 //@     invariant certsInMemory == s.certs && keysInAgent == ret(filter, f0, 1)
@@ -409,6 +416,10 @@ package shimagent
 //@     invariant forall(i, 0 <= i && i < len(keys), keys[i] != nil && (sha(akBlob(keys[i])) in dom(s.certs)))
 //@     invariant forall(h#bytes, visited(h), exists(i, 0 <= i && i < len(keys), akBlob(keys[i]) == blobid(asKey(s.certs[h]))))
 //@   loop 2:
+//@     invariant calls(time.Now) == t0 + 1
+//@     invariant forall(j, 0 <= j && j < len(keysInAgent), okBlob(kb(keysInAgent[j]), tUnix(ret(time.Now, t0, 0))), keysInAgent[j])
+//@     invariant forall(h#bytes, h in dom(s.certs), validAt(s.certs[h].Certificate, tUnix(ret(time.Now, t0, 0))))
+//@     invariant [nothing-listed-is-outside-its-validity-window] forall(i, entry(len(keys)) <= i && i < len(keys), okBlob(akBlob(keys[i]), tUnix(ret(time.Now, t0, 0))))
 //@     invariant wheld(s) && inv(s) && !old(s.locked)
 //@     invariant calls(filter) == f0 + 1 && arg(filter, f0, 0) == s && ret(filter, f0, 2) == nil && err == nil
 //@     invariant keysInAgent == ret(filter, f0, 1)
